@@ -93,7 +93,7 @@ func gen(r *hx.Rand, tier string) []json.RawMessage {
 	}
 	ns := 450
 	if tier == "thorough" {
-		ns = 25000
+		ns = 8000
 	}
 	for i := 0; i < ns; i++ {
 		var sb strings.Builder
@@ -120,7 +120,7 @@ func gen(r *hx.Rand, tier string) []json.RawMessage {
 	// ---- the formatter, small caps so that every boundary is crossed
 	nf := 260
 	if tier == "thorough" {
-		nf = 6000
+		nf = 2500
 	}
 	names := []string{"a", "b", "ID", "n", "col,umn", "with space", "été", "", "x\"y", strings.Repeat("longname", 9), "c"}
 	for i := 0; i < nf; i++ {
@@ -190,7 +190,7 @@ func gen(r *hx.Rand, tier string) []json.RawMessage {
 	}
 	nq := 25
 	if tier == "thorough" {
-		nq = 400
+		nq = 150
 	}
 	tails := []string{"", " LIMIT 3", " limit 2000", " ORDER BY 1", " -- limit 1", " WHERE 1=0", "; DELETE FROM trace", " UNION ALL SELECT * FROM big",
 		" RETURNING *", "/* x */", " LIMIT 1001"}
